@@ -486,6 +486,13 @@ class Interp:
                 return [(st, r)]
         if isinstance(base, (SObj, SOpaque)):
             return [(st, SOpaque(dotted(e)))]
+        if isinstance(base, SList):
+            # lst[-1]: the value of the last append (the only list read the solvers use); anything else is an unknown element
+            idx = self.ev1(st, e.slice)
+            Lst = st.lists[base.loc]
+            if isinstance(idx, SInt) and z3.is_true(z3.simplify(idx.t == -1)) and Lst.get('last') is not None:
+                return [(st, Lst['last'])]
+            return [(st, SReal(fresh(R, 'list_elem')))]
         if not isinstance(base, SArr):
             raise Unsupported(f'subscript of {type(base).__name__} (line {e.lineno})')
         sl = e.slice
